@@ -43,6 +43,9 @@ CPUS = {
     # 16-bit ADR words of the 65xx (little endian) and 68xx (big endian) families in one program
     '6502': (0x11, 1, 'byt', 'dfs', None),
     '6800': (0x61, 1, 'byt', 'rmb', None),
+    # targets that know PADDING but default to OFF: what a 68000 section switched on must not survive the CPU switch
+    '6809': (0x63, 1, 'fcb', 'rmb', None),
+    '6805': (0x62, 1, 'fcb', 'rmb', None),
 }
 STMT = {'68000p': '68000'}
 # target -> (initial cpu or None for default, partner cpu for CPU switches, has data segment)
@@ -56,6 +59,8 @@ TARGETS = {
     '68000pad': ('68000p', 'z80', False),
     'adr65': ('6502', '6800', False),
     'adr68': ('6800', '6502', False),
+    '68000pad09': ('68000p', '6809', False),
+    '68000pad05': ('68000p', '6805', False),
 }
 B_FULL = [1, 2, 3, 255, 256, 257, 510, 511, 512, 513, 514, 1024]
 B_Q = [1, 511, 512, 513]
@@ -94,13 +99,17 @@ class Model(object):
                 self.mem[(1, g, self.pc * g + b)] = (v if b == 0 else 0, fam)
             self.pc += bpv // g
 
-    def words(self, n):
-        """68000 dc.w / ds.w under PADDING ON"""
+    def words(self, n, pad=True):
+        """68000 dc.w / ds.w under PADDING ON; 68xx dc.w / ds.w under their default PADDING OFF"""
         fam = CPUS[self.cpu][0]
+        if not pad and not n:
+            self.lines.append('\tds.w 1')
+            self.pc += 2
+            return
         if n:
             vals = [self.nextval() for _ in range(n)]
             self.lines.append('\tdc.w ' + ','.join(str(v) for v in vals))
-            if self.pc & 1:
+            if pad and self.pc & 1:
                 self.mem[(1, 1, self.pc)] = (0, fam)
                 self.pc += 1
             for v in vals:
@@ -218,6 +227,8 @@ def build(case):
             elif op[0] == 'W':
                 if m.cpu == '68000p':
                     m.words(int(op[1:]))
+                elif m.cpu in ('6809', '6805'):
+                    m.words(int(op[1:]), pad=False)
                 elif m.cpu in ('6502', '6800'):
                     m.adr(max(1, int(op[1:])))
                 else:
@@ -240,7 +251,7 @@ def subspaces(tier):
                     for style in ('lines', 'one'):
                         if style == 'one' and t in ('avr', 'c30', 'avrargs'):
                             continue
-                        if t in ('68000pad', 'adr65', 'adr68'):
+                        if t in ('68000pad', 'adr65', 'adr68', '68000pad09', '68000pad05'):
                             continue        # only differ through the word ops of family (c)
                         if t == 'avrargs' and 256 + 2 * sum(ns) > 4000:
                             continue        # (the ATmega8 has 4K words of program memory: beyond that "address overflow" is the documented answer)
@@ -269,7 +280,7 @@ def subspaces(tier):
                 for s in itertools.product(ops, repeat=k):
                     if t in ('avr', 'c30', 'avrargs') and any(o[0] == 'B' for o in s):
                         continue
-                    if t in ('68000pad', 'adr65', 'adr68'):
+                    if t in ('68000pad', 'adr65', 'adr68', '68000pad09', '68000pad05'):
                         continue
                     yield {'k': 'c', 't': t, 'ops': list(s)}
         pops = ['E1', 'E2', 'E511', 'E512', 'W1', 'W3', 'W0', 'res1', 'org', 'cpu', 'end']
@@ -277,6 +288,11 @@ def subspaces(tier):
             for s in itertools.product(pops, repeat=k):
                 if any(o[0] == 'W' for o in s):
                     yield {'k': 'c', 't': '68000pad', 'ops': list(s)}
+        for t in ('68000pad09', '68000pad05'):
+            for k in range(2, n + 2):
+                for s in itertools.product(['E1', 'E2', 'W1', 'W3', 'W0', 'res1', 'cpu'], repeat=k):
+                    if any(o[0] == 'W' for o in s) and 'cpu' in s:
+                        yield {'k': 'c', 't': t, 'ops': list(s)}
         aops = ['E1', 'W1', 'W2', 'cpu', 'org', 'res1']
         for t in ('adr65', 'adr68'):
             for k in range(1, n + 2):
